@@ -182,22 +182,22 @@ theorem same_conv_preserves (k p d n : Nat) (hk : d * (k - 1) = 2 * p) (hk1 : 1 
   simp only [convOk, Bool.and_eq_true, decide_eq_true_eq]
   omega
 
-/-- `_partial` (what holds): **Conv2dGRU with replication padding** keeps the spatial size for any number of layers,
-with or without instance normalisation in the gates.  (The remembered input shape stays on the stack.) -/
-theorem gru_shape_id_partial (inorm : Bool) (layers : Nat) (s : Shape) (stk tr : List Shape) (h : ∀ n ∈ s, 1 ≤ n)
+/-- **Conv2dGRU shape identity**, full strength: replication padding *and* zero padding, any number of layers, with or
+without instance normalisation in the gates.  (The remembered input shape stays on the stack.) -/
+theorem gru_shape_id (repl inorm : Bool) (layers : Nat) (s : Shape) (stk tr : List Shape) (h : ∀ n ∈ s, 1 ≤ n)
     (hn : inorm = true → 1 < numel s) :
-    ∃ tr', run (gru true inorm layers) ⟨s, stk, tr⟩ = .ok ⟨s, s :: stk, tr'⟩ := gru_ok inorm layers s stk tr h hn
+    ∃ tr', run (gru repl inorm layers) ⟨s, stk, tr⟩ = .ok ⟨s, s :: stk, tr'⟩ := gru_ok repl inorm layers s stk tr h hn
 
-/-- FINDING (current tree): with `replication_padding=False` the dilated block `idx == 1` (`kernel 3, dilation 2`) is
-given `padding = 1` instead of `2`: a one-layer cell returns `(H − 2, W − 2)` … -/
-theorem gru_zero_padding_current_violates :
-    (run (gru false false 1) ⟨[9, 10], [], []⟩).toOption.map (·.cur) = some [7, 8] := by decide
+/-- regression witness (pinned tree, repaired by bf46aca): with `replication_padding=False` the dilated block
+`idx == 1` (`kernel 3, dilation 2`) was given `padding = 1` instead of `2`: a one-layer cell returned `(H − 2, W − 2)` … -/
+theorem gru_zero_padding_pinned_violates :
+    (run (gruPinned 1) ⟨[9, 10], [], []⟩).toOption.map (·.cur) = some [7, 8] := by decide
 
-/-- … and a cell with two or more layers raises (`torch.cat` of the block output with the recurrent state). -/
-theorem gru_zero_padding_current_violates_deep :
-    run (gru false false 2) ⟨[9, 10], [], []⟩ = .error .runtime := by decide
+/-- … and a cell with two or more layers raised (`torch.cat` of the block output with the recurrent state). -/
+theorem gru_zero_padding_pinned_violates_deep :
+    run (gruPinned 2) ⟨[9, 10], [], []⟩ = .error .runtime := by decide
 
-/-! ## group normalisation reshape, scaling-factor broadcast (findings) -/
+/-! ## group normalisation reshape (known findings), scaling-factor broadcast -/
 
 /-- the `reshape(b, groups, -1)` of the Norm-U-Nets is always possible when the channel count is a multiple of the
 group count (the 2-, 4-, 6-channel uses) … -/
@@ -207,7 +207,7 @@ theorem norm_reshape_ok (groups c : Nat) (sp : Shape) (hg : groups ≠ 0) (h : g
   simp only [groupReshapeOk, Bool.and_eq_true, bne_iff_ne, ne_eq, hg, not_false_eq_true, beq_iff_eq, true_and]
   rw [Nat.mul_assoc]; exact Nat.mul_mod_right _ _
 
-/-- FINDING (current tree): `MRIVarSplitNet(kspace_model_architecture="normunet")` builds a Norm-U-Net with **5**
+/-- KNOWN FINDING (current tree): `MRIVarSplitNet(kspace_model_architecture="normunet")` builds a Norm-U-Net with **5**
 input channels and 2 groups: the reshape fails for every image with an odd number of pixels -/
 theorem normunet_groups_current_violates : groupReshapeOk 2 5 [21, 19] = false := by decide
 
@@ -215,20 +215,25 @@ theorem normunet_groups_odd_fails (sp : Shape) (h : numel sp % 2 = 1) : groupRes
   simp only [groupReshapeOk, Bool.and_eq_false_iff, beq_eq_false_iff_ne, ne_eq]
   right; omega
 
-/-- FINDING (current tree): `CrossDomainNetwork` divides the `(N, H, W, 2)` image by the `(N,)` scaling factor the
-engine passes: broadcasting aligns the batch of factors with the *complex* axis — an error for `N ≥ 3` … -/
-theorem scaling_broadcast_current_violates (n h w : Nat) (h1 : n ≠ 1) (h2 : n ≠ 2) :
+/-- **scaling-factor broadcast** (`CrossDomainNetwork`, repaired by c4a262f): the per-sample factor reshaped to
+`(N, 1, 1, 1)` broadcasts against the `(N, H, W, C)` image for every batch size, size and channel count … -/
+theorem scaling_broadcast_image (n h w c : Nat) : broadcast [n, h, w, c] [n, 1, 1, 1] = some [n, h, w, c] := by
+  by_cases a : h = 1 <;> by_cases b : w = 1 <;> by_cases d : c = 1 <;> simp [broadcast, a, b, d]
+
+/-- … and `(N, 1, 1, 1, 1)` against the `(N, coil, H, W, 2)` k-space -/
+theorem scaling_broadcast_kspace (n k h w : Nat) : broadcast [n, k, h, w, 2] [n, 1, 1, 1, 1] = some [n, k, h, w, 2] := by
+  by_cases a : h = 1 <;> by_cases b : w = 1 <;> by_cases d : k = 1 <;> simp [broadcast, a, b, d]
+
+/-- regression witness (pinned tree): dividing the `(N, H, W, 2)` image by the `(N,)` factor the engine passes aligned
+the batch of factors with the *complex* axis — an error for `N ≥ 3` … -/
+theorem scaling_broadcast_pinned_violates (n h w : Nat) (h1 : n ≠ 1) (h2 : n ≠ 2) :
     broadcast [n, h, w, 2] [n] = none := by
   have e : (2 : Nat) ≠ n := fun e => h2 e.symm
   simp [broadcast, h1, e]
 
-/-- … and for `N = 2` it silently scales the real part by the first sample's factor and the imaginary part by the
+/-- … and for `N = 2` it silently scaled the real part by the first sample's factor and the imaginary part by the
 second's (the shapes are compatible). -/
-theorem scaling_broadcast_n2_mixes (h w : Nat) : broadcast [2, h, w, 2] [2] = some [2, h, w, 2] := by
-  by_cases a : h = 1 <;> by_cases b : w = 1 <;> simp [broadcast, a, b]
-
-/-- `_partial`: a per-sample factor reshaped to `(N, 1, 1, 1)` (as KIKINet does) broadcasts for every batch size -/
-theorem scaling_broadcast_repaired (n h w : Nat) : broadcast [n, h, w, 2] [n, 1, 1, 1] = some [n, h, w, 2] := by
+theorem scaling_broadcast_n2_pinned_mixes (h w : Nat) : broadcast [2, h, w, 2] [2] = some [2, h, w, 2] := by
   by_cases a : h = 1 <;> by_cases b : w = 1 <;> simp [broadcast, a, b]
 
 theorem foldl_add_replicate_zero (n : Nat) (a : Int) : (List.replicate n (0 : Int)).foldl (· + ·) a = a := by
@@ -236,7 +241,7 @@ theorem foldl_add_replicate_zero (n : Nat) (a : Int) : (List.replicate n (0 : In
   | zero => rfl
   | succ n ih => simp [List.replicate_succ, ih]
 
-/-- FINDING (current tree, finiteness): `MRIVarSplitNet(image_model_architecture="normunet")` feeds the Norm-U-Net
+/-- KNOWN FINDING (current tree, finiteness): `MRIVarSplitNet(image_model_architecture="normunet")` feeds the Norm-U-Net
 `cat([z, mu·(z − image)])` with `z = image.clone()` in the first iteration: the second normalisation group is
 identically zero, so its statistics are `S = 0`, `Q = Σ (n·x − S)² = 0` — `std = 0`, and `(x − mean) / std = 0 / 0`
 (NaN) for every input size. -/
@@ -338,6 +343,7 @@ example : run (mwcnn MwP.std 3) ⟨[2, 8], [], []⟩ = .error .runtime := by dec
 example : (run (didn DidnP.std 2 3 true) ⟨[3, 11], [], []⟩).toOption.map (·.cur) = some [3, 11] := by decide
 example : run (didn DidnP.std 2 3 false) ⟨[2, 11], [], []⟩ = .error .runtime := by decide
 example : (run (gru true true 3) ⟨[5, 6], [], []⟩).toOption.map (·.cur) = some [5, 6] := by decide
+example : (run (gru false false 3) ⟨[5, 6], [], []⟩).toOption.map (·.cur) = some [5, 6] := by decide
 example : mult16 17 = 32 ∧ mult16 16 = 16 ∧ mult16 1 = 16 ∧ pad16Lo 21 = 5 ∧ pad16Hi 21 = 6 := by decide
 example : unrolledCalls [] [⟨.perCoil, 2, 2⟩, ⟨.image, 2, 2⟩] 2 1 3 [5, 6] =
     [⟨[1, 2, 5, 6], [1, 2, 5, 6]⟩, ⟨[1, 2, 5, 6], [1, 2, 5, 6]⟩, ⟨[1, 2, 5, 6], [1, 2, 5, 6]⟩, ⟨[1, 2, 5, 6], [1, 2, 5, 6]⟩,
